@@ -71,7 +71,7 @@ impl LangInterpreter for Spanish {
             "dieciocho" | "decimoctavo" | "decimoctava" | "dieciochoavo" => b.put(b"18"),
             "diecinueve" | "decimonoveno" | "decimonovena" | "decinueveavo" => b.put(b"19"),
             "veinte" | "vigésimo" | "vigésima" | "veintavo" | "veinteavo" => b.put(b"20"),
-            "veintiuno" | "veintiuna" | "veintiunoavo" => b.put(b"21"),
+            "veintiuno" | "veintiuna" | "veintiún" | "veintiun" | "veintiunoavo" => b.put(b"21"),
             "veintidós" | "veintidos" | "veintidosavo" => b.put(b"22"),
             "veintitrés" | "veintitres" | "veintitresavo" => b.put(b"23"),
             "veinticuatro" | "veinticuatroavo" => b.put(b"24"),
